@@ -315,19 +315,22 @@ pub fn record(out: &str, seed: u64, n: usize) -> Value {
             let base = if with_decl { format!("<?xml version=\"1.0\" encoding=\"UTF-8\"?>{}", body) } else { body.clone() };
             let orig = read_all(base.as_bytes(), 0, 0);
             // decoded payloads of the UTF-8 original are the strings themselves
-            let malformed = j % 5 == 4 && [UTF_8, SHIFT_JIS, EUC_JP, GBK, BIG5, EUC_KR, GB18030].contains(&enc);
-            if malformed && enc != UTF_8 && (j / 5) % 2 == 0 {
+            // (a single-byte code page with unassigned bytes: one of those bytes is malformed input too)
+            let gap: Option<u8> = if enc.is_single_byte() { (0x80u8..=0xFF).find(|b| enc.decode_without_bom_handling(&[*b]).1) } else { None };
+            let malformed = j % 5 == 4 && ([UTF_8, SHIFT_JIS, EUC_JP, GBK, BIG5, EUC_KR, GB18030].contains(&enc) || gap.is_some());
+            if malformed && enc != UTF_8 && gap.is_none() && (j / 5) % 2 == 0 {
                 // a lead byte of a two-byte sequence as the LAST byte of the first text: the sequence is cut off by the `<`
                 // that ends the payload (0x81 is a lead byte in all of these encodings, 0x8F in EUC-JP)
                 let at = bytes.windows(4).position(|w| w == b"<!--").unwrap_or(bytes.len() - 1);
                 bytes.insert(at, if enc == EUC_JP { 0x8F } else { 0x81 });
             } else if malformed {
                 // 0xFF is not a valid byte in any of these encodings; put it into text (and sometimes an attribute value)
-                let at = bytes.windows(2).position(|w| w == b"\">").map(|p| p + 2).unwrap_or(bytes.len() - 1);
-                bytes.insert(at, 0xFF);
+                // (the root start tag ends with `'>`: the byte goes to the start of the first text)
+                let at = bytes.windows(2).position(|w| w == b"'>").map(|p| p + 2).unwrap_or(bytes.len() - 1);
+                bytes.insert(at, gap.unwrap_or(0xFF));
                 if rng.gen_bool(0.5) {
                     let at2 = bytes.windows(3).position(|w| w == b"k=\"").map(|p| p + 3).unwrap();
-                    bytes.insert(at2, 0xFF);
+                    bytes.insert(at2, gap.unwrap_or(0xFF));
                 }
             }
             let source = [0u8, 2, 2, 3, 4][rng.gen_range(0..5)];
